@@ -720,6 +720,7 @@ class Person(object):
             self.last_names.extend(definitely_not_von)
 
         def find_pos(lst, pred):
+            i = -1
             for i, item in enumerate(lst):
                 if pred(item):
                     return i
